@@ -272,12 +272,31 @@ def check_difference_cells(ctx):
     ctx.floor('factor-minus-factor cell cases', n, 6)
 
 
+def operand_in_block(fi, call):
+    """the first argument of `call`; a local name is replaced by what the enclosing block last bound it to before the call"""
+    a = call.args[0]
+    if not isinstance(a, ast.Name):
+        return a
+    for owner in ast.walk(fi.node):
+        for fld in ('body', 'orelse'):
+            blk = getattr(owner, fld, None)
+            if not isinstance(blk, list):
+                continue
+            for k, st in enumerate(blk):
+                if any(x is call for x in ast.walk(st)) and not any(isinstance(x, (ast.If, ast.For, ast.While)) and any(y is call for y in ast.walk(x)) and x is not st for x in ast.walk(st)):
+                    for prev in reversed(blk[:k]):
+                        if isinstance(prev, ast.Assign) and len(prev.targets) == 1 and U(prev.targets[0]) == a.id:
+                            return prev.value
+    ds = [x.value for x in ast.walk(fi.node) if isinstance(x, ast.Assign) and len(x.targets) == 1 and U(x.targets[0]) == a.id]
+    return ds[0] if len(ds) == 1 else a
+
+
 def check_exp_form(ctx):
     """Factor.exp is exp(values) entry by entry.  Its argument may be capped from above only at (or beyond) the largest exponent a double can
     take, log(finfo(float).max) ~ 709.78 - that changes nothing but results that were +inf; a lower cap (the float32 range, ~88.7) silently
     saturates ordinary cells: belief propagation ends in this very call, so marginals above 3.4e38 are cut off."""
     import math
-    fi = ctx.repo.func(FACTOR, 'Factor.exp')
+    fi = ctx.repo.nfunc(FACTOR, 'Factor.exp')
     ctx.analysed(fi)
     exps = [c for c in calls_in(fi.node) if U(c.func) in ('np.exp', 'numpy.exp') and c.args]
     if not exps:
@@ -286,9 +305,7 @@ def check_exp_form(ctx):
     consts = {a.targets[0].id: a.value for a in fi.module.tree.body if isinstance(a, ast.Assign) and len(a.targets) == 1 and isinstance(a.targets[0], ast.Name)}
     n = 0
     for c in exps:
-        a = c.args[0]
-        if isinstance(a, ast.Name) and a.id in local:
-            a = local[a.id]
+        a = operand_in_block(fi, c)
         t = U(a).replace(' ', '')
         n += 1
         if t == 'self.values':
@@ -320,7 +337,7 @@ def check_exp_form(ctx):
 def check_log_form(ctx):
     """Factor.log is log(values + FLOOR) entry by entry, FLOOR the tiny constant 1e-100 (possibly a parameter with that default): a SHIFT.  A floor by
     `np.maximum(values, FLOOR)` / clip / where agrees at 0 and for ordinary values but not for tiny positive ones, and hides negative entries."""
-    fi = ctx.repo.func(FACTOR, 'Factor.log')
+    fi = ctx.repo.nfunc(FACTOR, 'Factor.log')
     ctx.analysed(fi)
     defaults = fi.defaults()
     logs = [c for c in calls_in(fi.node) if U(c.func) in ('np.log', 'numpy.log') and c.args]
@@ -328,10 +345,15 @@ def check_log_form(ctx):
         raise AnalysisError('Factor.log: no np.log call')
     n = 0
     for c in logs:
-        a = c.args[0]
+        a = operand_in_block(fi, c)
         t = U(a).replace(' ', '')
         if t == 'self.values' and any(k.arg == 'out' for k in c.keywords):
             continue          # the in-place form writes the plain logarithm into the given storage (as it always did)
+        if any(k.arg == 'out' for k in c.keywords) and re.fullmatch(r'self\.values\+(.+)|(.+)\+self\.values', t):
+            n += 1
+            ctx.ob('log-form', fi, c, False, 'the in-place form `log(out=..)` writes the plain logarithm of the values (an empty cell gives -inf: a structural zero survives '
+                   'exp(out=) followed by log(out=)); the source takes the log of `%s`' % U(a)[:60], construct='operand of the in-place logarithm')
+            continue
         m = re.fullmatch(r'self\.values\+(.+)|(.+)\+self\.values', t)
         floor = None
         if m:
